@@ -30,6 +30,8 @@ func init() {
 			{ID: "C09.10", Desc: "equivalent spellings with percent-encoded dot segments share the key (decode before dot-segment removal)", Run: func(c *Ctx) { ruleDotAfterDecode(c, "C09.10") }, MinSites: 1},
 			{ID: "C09.11", Desc: "tables of header field names are keyed by canonical names (TE is looked up as Te)", Run: func(c *Ctx) { ruleHeaderTablesCanonical(c, "C09.11") }, MinSites: 1},
 			{ID: "C09.12", Desc: "a lifetime too large to represent saturates instead of counting as absent (else the response is never fresh)", Run: func(c *Ctx) { ruleSaturation(c, "C09.12") }, MinSites: 2},
+			{ID: "C09.13", Desc: "unreserved escapes are decoded by the predicate alone", Run: func(c *Ctx) { ruleDecodeByPredicateOnly(c, "C09.13") }, MinSites: 1},
+			{ID: "C09.14", Desc: "the entry parser splits the metadata line on the writer's separator (an id may contain a space)", Run: func(c *Ctx) { ruleMetaLineSeparator(c, "C09.14") }, MinSites: 1},
 		},
 	})
 }
